@@ -758,6 +758,11 @@ class Interp:
                 n.owned = z3.Bool(fresh_name(base + '.owned'))
             self.wellformed(st, n)
             return n
+        if isinstance(v, VMat):
+            # an array mutated in place keeps its shape and dtype; the cells are unknown
+            n = VMat(v.ek, v.rows, v.cols, z3.Array(fresh_name(base + '.mat'), z3.IntSort(), z3.ArraySort(z3.IntSort(), sort_of(v.ek))), dtype=v.dtype)
+            self.wellformed(st, n)
+            return n
         if isinstance(v, VOpt):
             return VOpt(z3.Bool(fresh_name(base + '.isnone')), self.fresh_like(v.val, base, st))
         if isinstance(v, (VSet, VDict)):
@@ -1898,6 +1903,8 @@ class Interp:
                     st._pre = saved
             if e.func.id in ('forall', 'exists') and self.spec_mode:
                 return self.quantify_lambda(e.func.id, e, st)
+            if e.func.id == 'mkcounter' and self.spec_mode:
+                return self.make_counter_value(e, st)
         if isinstance(e.func, ast.Attribute) and isinstance(e.func.value, ast.Name) and e.func.value.id == 'set' and e.func.attr == 'union' \
                 and st.lookup('set') is None and len(e.args) == 1 and isinstance(e.args[0], ast.Starred) and not e.keywords:
             return self.stubs.set_union_all(self, st, self.eval(e.args[0].value, st))
@@ -1939,6 +1946,11 @@ class Interp:
         for pname in c.get('params', {}):
             if pname not in names and pname in kwargs:
                 bound[pname] = kwargs[pname]
+        # ghost INPUT parameters of the callee's contract (history variables): supplied by the caller's contract
+        ghost_args = (self.cur.get('call_ghost_args') or {}).get(c['key']) or {}
+        for pname in c.get('params', {}):
+            if pname not in names and pname not in bound and pname in ghost_args:
+                bound[pname] = self.spec(st, ghost_args[pname], raw=True)
         missing = set(names) - set(bound)
         if missing:
             raise EngineError(f"call of {c['qualname']}: missing {missing}")
@@ -2240,6 +2252,26 @@ class Interp:
             else:
                 st.env[nme] = old
         return VBool(z3.ForAll(bound, body) if which == 'forall' else z3.Exists(bound, body))
+
+    def make_counter_value(self, e, st):
+        """mkcounter(lambda y: <int expr>, "Kind"): a Counter value given by a function of its key (spec only; used to pass a
+        ghost history to a callee's contract)."""
+        lam = e.args[0]
+        k = parse_kind(ast.literal_eval(e.args[1]))
+        y = z3.Const(fresh_name(lam.args.args[0].arg), sort_of(k))
+        saved = st.env.get(lam.args.args[0].arg)
+        st.env[lam.args.args[0].arg] = from_term(y, k)
+        self.bound.append(y)
+        try:
+            body = self.eval(lam.body, st)
+        finally:
+            self.bound.pop()
+            if saved is None:
+                st.env.pop(lam.args.args[0].arg, None)
+            else:
+                st.env[lam.args.args[0].arg] = saved
+        d = VDict(k, 'int', z3.K(sort_of(k), z3.BoolVal(True)), z3.Lambda([y], to_term(body, 'int')), None, default=VInt(0), flavor='counter')
+        return d
 
     # ------------------------------------------------------------------ spec evaluation
     def spec(self, st, expr, pre=None, contract=None, raw=False):
